@@ -32,7 +32,10 @@ class SourceModule(Object):
     @property
     def changed(self):
         # type: () -> bool
-        if self.mtime != getmtime(self.filename):
+        try:
+            if self.mtime != getmtime(self.filename):
+                return True
+        except OSError:  # the file is gone: look the name up again
             return True
 
         # the analysis copies star-imported names and keeps references into the
